@@ -97,6 +97,19 @@ class Gen:
                 out.append(r.choice(["self.p", "self.q", "lst[0]", "lst[1]", "self.arr[0]"]) + f" = {self.expr(defined)}")
             elif c < 0.5:
                 out.append(f"lst.append({self.expr(defined)})")
+            elif c < 0.51 and depth < 3:
+                # two decisions in a row on the same names (possibly rebound in the first arm)
+                names = sorted(defined)
+                x, y = r.choice(names), r.choice(names)
+                t = f"{x} {r.choice(['<', '==', '!=', '>='])} {y}"
+                b1, _ = self.block(defined, depth + 1, in_loop)
+                b2, _ = self.block(defined, depth + 1, in_loop)
+                if r.random() < 0.4:
+                    b1.append(f"{x} = {self.expr(defined)}")
+                out.append(f"if {t}:")
+                out += ["    " + ln for ln in b1]
+                out.append(f"if {t}:")
+                out += ["    " + ln for ln in b2]
             elif c < 0.52:
                 # a temporary that is only the iterable of a comprehension / of a loop
                 v, w = self.fresh(), self.fresh()
